@@ -26,7 +26,11 @@ violated the property in six ways, each replayed on the real gateware (KNOWN_FIN
 * `nrdy_then_erdy` (history level, all input histories): from an NRDY until an ERDY request has
   completed (`send_erdy ∧ done`) the endpoint stays in WAIT_FOR_DATA / REQUEST_IN_TOKEN, so it starts no
   data packet and no ZLP in between; `nrdy_leads_to_erdy_request`: once a packet is complete in that
-  situation the very next state requests the ERDY.
+  situation the very next state requests the ERDY.  Here `In.done` is the completion of the ERDY requested in
+  REQUEST_IN_TOKEN (`handshakes_out.done ∧ erdy_in_flight` in the gateware).  `Props/C46Erdy.lean` closes the loop with
+  the transaction packet generator, whose raw `done` also reports the endpoint's own NRDY: `loop_nrdy_then_erdy`
+  (until the ERDY transaction packet is handed to the header queue), `loop_erdy_within_bound` (within 2 L + 4 cycles
+  when the queue stalls at most L cycles), `unrepaired_loses_erdy` (the defect repaired by `erdy_in_flight`).
 * `in_request_answered`           an IN request (ACK TP with NumP ≠ 0 for this endpoint) in any state but
   REQUEST_IN_TOKEN / SEND_PACKET is answered in the same cycle by NRDY, by a ZLP, or by entering SEND_PACKET.
 * `header_fields_always`          `tx_endpoint_number`, `tx_length`, `tx_sequence_number` carry the
